@@ -148,3 +148,79 @@ func TestRaceAux(t *testing.T) {
 		t.Fail()
 	}
 }
+
+// osSvc records its Shutdown call.
+type osSvc struct {
+	idx int
+	mu  *sync.Mutex
+	log *[]int
+}
+
+func (s osSvc) Start(context.Context) error { return nil }
+func (s osSvc) Shutdown(context.Context) error {
+	s.mu.Lock()
+	*s.log = append(*s.log, s.idx)
+	s.mu.Unlock()
+	return nil
+}
+
+// TestOSSignal uses the default notifier (os/signal): the process sends itself each of the three shutdown
+// signals and the handler of that round must shut its services down.  A signal the handler did not subscribe to
+// kills the process (the default action of SIGINT/SIGQUIT/SIGTERM), which the driver reports with the log.
+func TestOSSignal(t *testing.T) {
+	r := mon.Start("C18", "os_signal")
+	var n int64
+	for round, sig := range []syscall.Signal{syscall.SIGTERM, syscall.SIGINT, syscall.SIGQUIT, syscall.SIGTERM} {
+		var mu sync.Mutex
+		var log []int
+		h := service.NewSignalHandler(&service.SignalHandlerConfig{Logger: slog.New(slog.NewTextHandler(discard{}, nil))})
+		if round == 3 {
+			h = service.NewSignalHandler(nil) // all defaults (logs to the default logger)
+		}
+		for i := 0; i < 3; i++ {
+			h.Add(osSvc{i, &mu, &log})
+		}
+		done := make(chan int, 1)
+		go func() { done <- h.Handle(context.Background()) }()
+		time.Sleep(20 * time.Millisecond) // let Handle reach its receive; the channel is buffered anyway
+		os.Stderr.WriteString("verif-os-signal: sending " + sig.String() + "\n")
+		if err := syscall.Kill(os.Getpid(), sig); err != nil {
+			r.Inconclusive("kill(self, " + sig.String() + "): " + err.Error())
+			continue
+		}
+		select {
+		case status := <-done:
+			os.Stderr.WriteString("verif-os-signal: handled " + sig.String() + "\n")
+			n++
+			mu.Lock()
+			got := append([]int(nil), log...)
+			mu.Unlock()
+			if len(got) != 3 || got[0] != 2 || got[1] != 1 || got[2] != 0 || status != 0 {
+				r.Violation("os-signal:"+sig.String(), "real "+sig.String()+" sent to the process: Shutdown calls "+fmtInts(got)+", status "+fmtInts([]int{status})+"; want [2 1 0] and status 0", map[string]any{"signal": sig.String()})
+			}
+		case <-time.After(60 * time.Second):
+			r.Inconclusive("the handler did not return within 60 s of a real " + sig.String())
+		}
+	}
+	r.Eval(n)
+	r.NontrivialN(n)
+	r.Count("real_signals_handled", n)
+	if r.Finish() > 0 {
+		t.Fail()
+	}
+}
+
+type discard struct{}
+
+func (discard) Write(p []byte) (int, error) { return len(p), nil }
+
+func fmtInts(x []int) string {
+	s := "["
+	for i, v := range x {
+		if i > 0 {
+			s += " "
+		}
+		s += string(rune('0' + v%10))
+	}
+	return s + "]"
+}
